@@ -39,6 +39,7 @@ private:
 
   [[nodiscard]] std::string ProcessTupleDeclaration(SyntaxTree::Node& root);
   void SubstituteTupleVariables(SyntaxTree::Node& target, const std::string& newName);
+  void SubstituteTupleVariable(SyntaxTree::Node& target, Index child, const std::string& newName);
   
   [[nodiscard]] static std::vector<std::string> ArgNames(const SyntaxTree::Node& declaration);
   void SubstituteArgs(SyntaxTree::Node& target, StrRange pos);
